@@ -174,6 +174,25 @@ HView == <<qstate, qpoll, jobs, wakeBlocked, schedule, pthreads, nspawned, paliv
     open(os.path.join(outdir, name + '.cfg'), 'w').write(cfg)
 
 
+def write_liveness(scn, fixes, outdir, name='ML'):
+    """Module for the liveness check: under weak fairness of every process (thread, pool thread) every behaviour of the scenario's
+    model reaches a state in which no process can take a step - the model has no livelock, so that the obligations judged at
+    quiescence (sync returns, futures resolve, queues drain, consumers wake) are judged on every fair behaviour"""
+    import tracegen
+    write_mc(scn, fixes, outdir, name)
+    procs = tracegen.procedures()
+    procstep = ' \\/ '.join('%s(p)' % p for p in procs) + ' \\/ (p \\in Threads /\\ caller(p)) \\/ (p \\in PoolSet /\\ pool(p))'
+    path = os.path.join(outdir, name + '.tla')
+    tla = open(path).read().replace('====', '''ProcStep(p) == %s
+FairSpec == Init /\\ [][Next]_vars /\\ \\A p \\in Procs : WF_vars(ProcStep(p))
+Quiet == \\A p \\in Procs : ~ENABLED ProcStep(p)
+EventuallyQuiet == <>Quiet
+====''' % procstep)
+    open(path, 'w').write(tla)
+    cfg = 'SPECIFICATION FairSpec\n' + CONST_CFG + 'ACTION_CONSTRAINT SilentPriority\nINVARIANT NoViol\nPROPERTY EventuallyQuiet\nCHECK_DEADLOCK FALSE\n'
+    open(os.path.join(outdir, name + '.cfg'), 'w').write(cfg)
+
+
 def write_behaviours(scn, fixes, outdir, name='MB'):
     """Module for `tlc -simulate`: prints the schedule of every complete behaviour (who moved at which label)"""
     silent = silent_labels()
